@@ -2958,6 +2958,7 @@ class Qube(object):
         if (self._rank_ == 0 and isinstance(arg, (numbers.Real, np.ndarray))
             and not isinstance(arg, np.ma.MaskedArray)):
             self._require_inplace_shape(np.shape(arg), '+=')
+            self._require_inplace_kind(arg, '+=')
             self._values_ += arg
             self._new_values_()
             return self
@@ -3081,6 +3082,7 @@ class Qube(object):
         if (self._rank_ == 0 and isinstance(arg, (numbers.Real, np.ndarray))
             and not isinstance(arg, np.ma.MaskedArray)):
             self._require_inplace_shape(np.shape(arg), '-=')
+            self._require_inplace_kind(arg, '-=')
             self._values_ -= arg
             self._new_values_()
             return self
@@ -3215,6 +3217,7 @@ class Qube(object):
         if isinstance(arg, numbers.Real):
             # A derivative can be shared with another object, so it is replaced,
             # not modified in place
+            self._require_inplace_kind(arg, '*=')
             new_derivs = {key: deriv._mul_by_number(arg, False)
                           for (key, deriv) in self._derivs_.items()}
             self._values_ *= arg
@@ -3574,6 +3577,7 @@ class Qube(object):
 
         # If a number...
         if isinstance(arg, numbers.Real) and arg != 0:
+            self._require_inplace_kind(arg, '//=')
             self._values_ //= arg
             self._new_values_()
             self.delete_derivs()
@@ -3597,6 +3601,7 @@ class Qube(object):
                 div_values = np.reshape(div_values, np.shape(div_values) +
                                                     self._rank_ * (1,))
             self._require_inplace_shape(arg._shape_, '//=')
+            self._require_inplace_kind(div_values, '//=')
             self._values_ //= div_values
             self._mask_ = self._merged_mask(divisor._mask_)
             self._units_ = Units.div_units(self._units_, arg._units_)
@@ -3708,6 +3713,7 @@ class Qube(object):
 
         # If a number...
         if isinstance(arg, numbers.Real) and arg != 0:
+            self._require_inplace_kind(arg, '%=')
             self._values_ %= arg
             self._new_values_()
             return self
@@ -3730,6 +3736,7 @@ class Qube(object):
                 div_values = np.reshape(div_values, np.shape(div_values) +
                                                     self._rank_ * (1,))
             self._require_inplace_shape(arg._shape_, '%=')
+            self._require_inplace_kind(div_values, '%=')
             self._values_ %= div_values
             self._mask_ = self._merged_mask(divisor._mask_)
             self._units_ = Units.div_units(self._units_, arg._units_)
@@ -4521,6 +4528,20 @@ class Qube(object):
             raise ValueError('incompatible shapes for %s: %s, %s'
                              % (self._opstr(op), self._shape_,
                                 tuple(arg_shape)))
+
+    #===========================================================================
+    def _require_inplace_kind(self, arg, op):
+        """Raise a TypeError if a non-integer operand is applied in place to
+        this shapeless integer object.
+
+        NumPy rejects such an operand for integer arrays; a Python int value
+        would silently be replaced by a float.
+        """
+
+        if (not np.shape(self._values_) and self.is_int()
+            and np.asarray(arg).dtype.kind == 'f'):
+                raise TypeError('"%s" operation returns non-integer result'
+                                % op)
 
     #===========================================================================
     @staticmethod
